@@ -271,10 +271,12 @@ def harness(name, cfg, flavour, defines=(), link=()):
 
 
 def prune():
-    """Removes caches of other source trees (disk is limited)."""
+    """Removes caches of other source trees (disk is limited). Only old ones: a cache that was used within the last hour may
+    belong to a check running concurrently against another tree."""
     keep = tree_hash()
-    if not os.path.isdir(BUILD):
+    if not os.path.isdir(BUILD) or os.environ.get("VERIF_REPO"):
         return
+    now = time.time()
     ents = []
     for e in os.listdir(BUILD):
         p = os.path.join(BUILD, e)
@@ -282,12 +284,13 @@ def prune():
             ents.append((os.path.getmtime(p), p))
     ents.sort()
     # keep the most recent other tree (switching back and forth between a patch and the clean tree is common)
-    for _, p in ents[:-1]:
-        shutil.rmtree(p, ignore_errors=True)
+    for mt, p in ents[:-1]:
+        if now - mt > 3600:
+            shutil.rmtree(p, ignore_errors=True)
     for e in os.listdir(BUILD):
         if e.startswith("nodesizes-") and not e.endswith(".lock") and e != "nodesizes-" + cmake_hash():
             p = os.path.join(BUILD, e)
-            if os.path.isdir(p) and time.time() - os.path.getmtime(p) > 3600:
+            if os.path.isdir(p) and now - os.path.getmtime(p) > 3600:
                 shutil.rmtree(p, ignore_errors=True)
 
 
@@ -295,6 +298,11 @@ def build_all(specs, jobs=16):
     """specs: iterable of (harness, cfg, flavour, defines, link). Builds in parallel.
     Returns dict spec -> exe path. Raises BuildError."""
     specs = list(dict.fromkeys(specs))
+    try:
+        os.makedirs(os.path.join(BUILD, tree_hash()), exist_ok=True)
+        os.utime(os.path.join(BUILD, tree_hash()), None)  # "in use" marker for prune()
+    except OSError:
+        pass
     # libraries first (each is internally parallel)
     variants = list(dict.fromkeys((s[1], s[2]) for s in specs))
     node_sizes_header()
